@@ -58,3 +58,53 @@ WITNESSES = {
                  ops=[("evaluate", 0, False, False, {A: 0}), ("evaluate", 0, False, False, {A: 0})]),
         fails_at=1),
 }
+
+# Scenarios of defects that were repaired by fix: commits (known_findings.json, status "fixed").
+# They suppress nothing: they run first on every check of the properties they concern and must pass.
+S_, SX_, SY_ = 20, 21, 22
+FIXED = {
+    "D2": dict(  # fix f469561
+        props=["C01", "C03", "C08"],
+        scn=dict(ftable={100: ("first",), 101: ("tag",)},
+                 env={1: dict(fid=100, kwargs=[opt(K(S_))], options={S_: {SX_: 1}}),
+                      2: dict(fid=101, kwargs=[("dataset", 1)])},
+                 exprs=[("dataset", 2), ("dataset", 1)],
+                 ops=[("evaluate", 0, False, False, {S_: {SY_: 2}}), ("evaluate", 0, False, False, {S_: {SY_: 3}}),
+                      ("keys", 0, False, False, {S_: {SY_: 3}}), ("explain", 0, False, False, {}),
+                      ("evaluate", 1, False, False, {S_: {SY_: 3}}), ("evaluate", 0, False, False, {}),
+                      ("keys", 0, False, False, {}), ("evaluate", 0, False, False, {S_: {SX_: 5}}),
+                      ("keys", 0, False, False, {S_: {SX_: 5}}), ("keys", 0, False, False, {S_: {SX_: 1}})])),
+    "D2b": dict(  # same root cause through default options and a WithOptions wrapper
+        props=["C01", "C03", "C08"],
+        scn=dict(ftable={100: ("first",)}, env={},
+                 exprs=[("cached", 50, ("with", True, {S_: {SX_: 1}}, opt(K(S_)))),
+                        ("cached", 51, ("with", False, {S_: {SX_: 1}}, opt(K(S_))))],
+                 ops=[("evaluate", 0, False, False, {S_: {SY_: 2}}), ("evaluate", 0, False, False, {S_: {SY_: 3}}),
+                      ("keys", 0, False, False, {S_: {SY_: 3}}),
+                      ("evaluate", 1, False, False, {S_: {SY_: 2}}), ("evaluate", 1, False, False, {S_: {SY_: 3}}),
+                      ("evaluate", 1, False, False, {}), ("keys", 1, False, False, {}),
+                      ("keys", 1, False, False, {S_: {SY_: 3}})])),
+    "D8": dict(  # fix 3f28b1e
+        props=["C01", "C08", "C07"],
+        scn=dict(ftable={100: ("tag",), 101: ("tag",)},
+                 env={1: dict(fid=100, kwargs=[opt(K(A))], callback=("pstep", 101, [])),
+                      2: dict(derived=1, how="with_options", preset={Z: 1}),
+                      3: dict(derived=1, how="with_default_options", preset={A: 7})},
+                 exprs=[("dataset", 1), ("dataset", 2), ("dataset", 3)],
+                 ops=[("evaluate", 1, False, False, {A: 1}), ("evaluate", 0, False, False, {A: 1}),
+                      ("evaluate", 0, False, False, {A: 2}), ("evaluate", 1, False, False, {A: 2}),
+                      ("evaluate", 2, False, False, {}), ("evaluate", 2, False, False, {A: 3}),
+                      ("evaluate", 0, False, False, {A: 7})])),
+    "D5": dict(  # fix 634ec72
+        props=["C04", "C06", "C10", "C11", "C12", "C01"],
+        scn=dict(ftable={100: ("tag",)}, env={},
+                 exprs=[opt(K(A), val(5)), opt(K(A)), opt(K(A), ("call", 100, []))],
+                 ops=[("evaluate", 0, False, False, {A: S(("ref", K(B)))}), ("evaluate", 1, False, False, {A: S(("ref", K(B)))}),
+                      ("validate", 0, False, False, {A: S(("ref", K(B)))}), ("keys", 0, False, False, {A: S(("ref", K(B)))}),
+                      ("explain", 0, False, False, {A: S(("ref", K(B)))}), ("evaluate", 2, False, False, {A: S(("ref", K(B)))}),
+                      ("evaluate", 0, False, False, {A: S(("ref", K(B))), B: 3}), ("evaluate", 0, False, False, {})])),
+}
+
+
+def corpus_for(pid):
+    return [(name, w["scn"]) for name, w in FIXED.items() if pid in w["props"]]
